@@ -569,9 +569,24 @@ func (sc *SubCache[EntityT, ExcerptT, CacheT]) MergeAll(remote string) <-chan en
 				sc.excerpts[result.Id] = sc.makeExcerpt(cached)
 				// might as well keep them in memory
 				sc.cached[result.Id] = cached
+				sc.lru.Add(result.Id)
 				sc.mu.Unlock()
+
+				// the search index has to follow as well
+				index, err := sc.repo.GetIndex(sc.namespace)
+				if err != nil {
+					out <- entity.NewMergeError(err, result.Id)
+					return
+				}
+				err = index.IndexOne(result.Id.String(), sc.makeIndexData(cached))
+				if err != nil {
+					out <- entity.NewMergeError(err, result.Id)
+					return
+				}
 			}
 		}
+
+		sc.evictIfNeeded()
 
 		err = sc.write()
 		if err != nil {
